@@ -129,6 +129,8 @@ func NewSim(rng *rand.Rand, mode string) *Sim {
 	devNew := s.W.NewRecipeKind("uclock", 6+uint64(rng.Intn(6)), t0)
 	s.Net.HardforkDevAddr.OldAddress = gtx.SiafundOutputs[0].Address
 	s.Net.HardforkDevAddr.NewAddress = devNew.Addr
+	// the old address also holds siacoins: the override is for siafunds only
+	gtx.SiacoinOutputs = append(gtx.SiacoinOutputs, types.SiacoinOutput{Address: s.Net.HardforkDevAddr.OldAddress, Value: types.Siacoins(7000)})
 	s.Genesis = types.Block{Timestamp: t0, Transactions: []types.Transaction{gtx}}
 	if s.Net.HardforkV2.RequireHeight == 0 {
 		// a v2-only network needs a v2 genesis
